@@ -136,13 +136,18 @@ def partialP (s : List Char) : Option (Option BoundSet × List Char) :=
   | none => none
   | some (p, r) => some (partialSet p, r)
 
+/-- `opt(literal(">"))` -/
+def stripGt (s : List Char) : Bool × List Char :=
+  match s with
+  | '>' :: t => (true, t)
+  | _ => (false, s)
+
 /-- `tilde_gt()`: `("~", space0, opt(">"), space0)`; the flag says whether `>` was present -/
 def tildeGt (s : List Char) : Option (Bool × List Char) :=
   match s with
   | '~' :: t =>
-    match dropBlanks t with
-    | '>' :: t' => some (true, dropBlanks t')
-    | t' => some (false, dropBlanks t')
+    let g := stripGt (dropBlanks t)
+    some (g.1, dropBlanks g.2)
   | _ => none
 
 /-- the match of `tilde()` -/
@@ -220,23 +225,36 @@ def hyphenSet (lower : Option Partial) (upper : Pred) : Option BoundSet :=
     | unb => BoundSet.atLeast (inc (Version.mk3 0 0 0))
     | u => BoundSet.atMost u
 
-/-- `hyphen()`: `opt(partial_version) space1 "-" space1 partial_version` -/
-def hyphen (s : List Char) : Option (Option BoundSet × List Char) :=
-  let l : Option Partial × List Char := match partialVersion s with
-    | some (p, r) => (some p, r)
-    | none => (none, s)
-  match blanks1 l.2 with
+/-- `opt(partial_version)` -/
+def optPartial (s : List Char) : Option Partial × List Char :=
+  match partialVersion s with
+  | some (p, r) => (some p, r)
+  | none => (none, s)
+
+/-- `literal("-")` -/
+def dash (s : List Char) : Option (List Char) :=
+  match s with
+  | '-' :: r => some r
+  | _ => none
+
+/-- the upper part of `hyphen()`: `space1 "-" space1 partial_version` -/
+def hyphenRest (s : List Char) : Option (Partial × List Char) :=
+  match blanks1 s with
   | none => none
   | some r1 =>
-    match r1 with
-    | '-' :: r2 =>
+    match dash r1 with
+    | none => none
+    | some r2 =>
       match blanks1 r2 with
       | none => none
-      | some r3 =>
-        match partialVersion r3 with
-        | none => none
-        | some (u, r4) => some (hyphenSet (l.1.filter (·.major.isSome)) (hyphenUpper u), r4)
-    | _ => none
+      | some r3 => partialVersion r3
+
+/-- `hyphen()`: `opt(partial_version) space1 "-" space1 partial_version` -/
+def hyphen (s : List Char) : Option (Option BoundSet × List Char) :=
+  let l := optPartial s
+  match hyphenRest l.2 with
+  | none => none
+  | some (u, r4) => some (hyphenSet (l.1.filter (·.major.isSome)) (hyphenUpper u), r4)
 
 /-- `peek(alt((space1, literal("||"), eof)))` -/
 def atEnd (s : List Char) : Bool :=
@@ -349,21 +367,19 @@ theorem partialP_length {s b r} (h : partialP s = some (b, r)) : r.length < s.le
     cases h
     exact partialVersion_length hp
 
+theorem stripGt_length (s : List Char) : (stripGt s).2.length ≤ s.length := by
+  unfold stripGt; split <;> simp
+
 theorem tildeGt_length {s g r} (h : tildeGt s = some (g, r)) : r.length < s.length := by
   unfold tildeGt at h
   split at h
   · rename_i t
+    simp only [Option.some.injEq, Prod.mk.injEq] at h
+    obtain ⟨_, rfl⟩ := h
     have h0 := dropBlanks_length_le t
-    split at h
-    · rename_i t' ht
-      cases h
-      have := dropBlanks_length_le t'
-      rw [ht] at h0
-      simp at *; omega
-    · rename_i t' _
-      cases h
-      have := dropBlanks_length_le (dropBlanks t)
-      simp; omega
+    have h1 := stripGt_length (dropBlanks t)
+    have h2 := dropBlanks_length_le (stripGt (dropBlanks t)).2
+    simp; omega
   · cases h
 
 theorem tilde_length {s b r} (h : tilde s = some (b, r)) : r.length < s.length := by
@@ -403,34 +419,71 @@ theorem blanks1_length {s r} (h : blanks1 s = some r) : r.length < s.length := b
     · cases h
   · cases h
 
-theorem hyphen_length {s b r} (h : hyphen s = some (b, r)) : r.length < s.length := by
-  unfold hyphen at h
-  simp only at h
-  have hl : (match partialVersion s with
-      | some (p, r) => ((some p, r) : Option Partial × List Char)
-      | none => (none, s)).2.length ≤ s.length := by
-    split
-    · rename_i p r hp
-      have := partialVersion_length hp
-      simp; omega
-    · simp
+theorem optPartial_length (s : List Char) : (optPartial s).2.length ≤ s.length := by
+  unfold optPartial
+  split
+  · rename_i p r hp
+    have := partialVersion_length hp
+    simp; omega
+  · simp
+
+theorem hyphenRest_length {s u r} (h : hyphenRest s = some (u, r)) : r.length < s.length := by
+  unfold hyphenRest at h
   split at h
   · cases h
   · rename_i r1 h1
     have := blanks1_length h1
     split at h
-    · rename_i r2
+    · cases h
+    · rename_i r2 h2
+      have hd : r2.length < r1.length := by
+        unfold dash at h2; split at h2 <;> cases h2; simp
       split at h
       · cases h
       · rename_i r3 h3
         have := blanks1_length h3
-        split at h
-        · cases h
-        · rename_i u r4 h4
-          cases h
-          have := partialVersion_length h4
-          simp at *; omega
+        have := partialVersion_length h
+        omega
+
+theorem hyphen_length {s b r} (h : hyphen s = some (b, r)) : r.length < s.length := by
+  unfold hyphen at h
+  simp only at h
+  have hl := optPartial_length s
+  split at h
+  · cases h
+  · rename_i u r4 h4
+    cases h
+    have := hyphenRest_length h4
+    omega
+
+theorem hyphen_some {s : List Char} {o : Option BoundSet} {r : List Char} (h : hyphen s = some (o, r)) :
+    ∃ u, hyphenRest (optPartial s).2 = some (u, r) ∧
+      o = hyphenSet ((optPartial s).1.filter (·.major.isSome)) (hyphenUpper u) := by
+  unfold hyphen at h
+  simp only at h
+  split at h
+  · cases h
+  · rename_i u r4 h4
+    cases h
+    exact ⟨u, h4, rfl⟩
+
+theorem hyphenRest_some {s : List Char} {u : Partial} {r : List Char} (h : hyphenRest s = some (u, r)) :
+    ∃ r3, partialVersion r3 = some (u, r) := by
+  unfold hyphenRest at h
+  split at h
+  · cases h
+  · split at h
     · cases h
+    · split at h
+      · cases h
+      · rename_i r3 _; exact ⟨r3, h⟩
+
+theorem optPartial_some {s : List Char} {p : Partial} (h : (optPartial s).1 = some p) :
+    ∃ r, partialVersion s = some (p, r) := by
+  unfold optPartial at h
+  split at h
+  · rename_i p' r hp; simp at h; subst h; exact ⟨r, hp⟩
+  · cases h
 
 theorem garbage_length (s : List Char) : (garbage s).length ≤ s.length := by
   induction s with
